@@ -321,6 +321,8 @@ def regex_dialect(ctx):
              "name productions (BMP)")
     gp = sm.func('XSDTree', 'get_pattern', T.M_TREE)
     tp = gp.nested.get('translate_pattern')
+    if tp is None and any(isinstance(n, ast.Call) and isinstance(n.func, ast.Attribute) and n.func.attr == 'replace' for n in ast.walk(gp.node)):
+        tp = gp         # the helper was moved out of the function (and expanded back into it by the normaliser): the rewriting is in get_pattern itself
     if tp is None:
         raise AnalysisError("XSDTree.get_pattern: helper translate_pattern vanished")
     # what does translate_pattern rewrite?
